@@ -267,13 +267,15 @@ def q_remove_bitstring(cfg):
                     rest = ("slice", body, Lin.const(1).key(), None)
                     out.append((mode + ":pad-nonempty", s.proves_ge(length - 2), "unused != 0 on an empty bit string rejected"))
                     padok = False
+                    masks = [(Lin.sym(("pow", Lin.const(2).key(), un.key())) - 1).key(), (Lin.sym(("shl", Lin.const(1).key(), un.key())) - 1).key()]
+                    lastb = Lin.sym(("byte", rest, Lin.const(-1).key())).key()
                     for l in s.cons.ges:
                         for k in l.co:
                             t = k.t
-                            if isinstance(t, tuple) and t and t[0] == "and" and any(x and x[0] == "byte" for x in subterms(t[1])):
+                            if isinstance(t, tuple) and t and t[0] == "and" and ((t[1] == lastb and t[2] in masks) or (t[2] == lastb and t[1] in masks)):
                                 if s.proves_eq(Lin.sym(t)):
                                     padok = True
-                    out.append((mode + ":pad-zero", padok, "padding bits of the last octet tested to be zero"))
+                    out.append((mode + ":pad-zero", padok, "all `unused` low bits of the last octet (mask 2**unused - 1) tested to be zero"))
     return {"name": "remove_bitstring", "returns": nret, "checks": out, "esc": esc}
 
 
